@@ -59,8 +59,9 @@ def run_case(case):
     close = case.get("tc") == "never"
     # distinct but close colours: without 24-bit colour they are one and the same cell of the 256-colour cube
     pal = " ".join("#%02x%02x%02x" % (0x30 + 2 * i, 0x30 + 2 * i, 0x30 + 2 * i) for i in range(case["n"])) if close else palette(case["n"])
+    sep = ["--blame-separator-format", "│{n:^4_%s}│" % case["numbers"]] if case.get("numbers") else []
     rc, out, err = vlib.run_delta(["--no-gitconfig", "--true-color", case.get("tc", "always"), "--blame-palette", pal,
-                                   "--paging", "never", "--width", "200"], stdin=inp)
+                                   "--paging", "never", "--width", "200"] + sep, stdin=inp)
     rows = term.decode(out) if rc == 0 else []
     cols = []
     ids = {}
@@ -92,8 +93,13 @@ def row_content_ok(case, obs):
             why.append(f"row {i}: no separators: {row!r}")
             continue
         meta, num = parts[0], parts[1]
-        if num.strip() != str(i + 1):
-            why.append(f"row {i}: line number {num!r} != {i + 1}")
+        mode = case.get("numbers")
+        # `every-N`: at the start of every block and on every N-th line; `block`: at the start of every block only
+        shown = True if not mode or mode == "every" else (prev != k or (mode.startswith("every-") and (i + 1) % int(mode[6:]) == 0))
+        if shown and num.strip() != str(i + 1):
+            why.append(f"row {i}: line number {num!r} != {i + 1}" + (f" (line-number mode {mode})" if mode else ""))
+        if not shown and num.strip() not in ("", str(i + 1)):
+            why.append(f"row {i}: line number field {num!r} is neither blank nor {i + 1}")
         if prev == k:
             if meta.strip() != "":
                 why.append(f"row {i}: metadata not blanked on repeated key: {meta!r}")
@@ -142,6 +148,15 @@ def gen_cases(tier, seed):
             else:
                 ks.append(rng.randrange(nk))
         cases.append({"n": n, "keys": ks, "flags": [False] * L, "seed": seed + i, "kind": "random"})
+    # the other line-number modes of the separator format: every-N, block
+    for i in range(60 if tier == "quick" else 600):
+        rng = vlib.case_rng(seed, PID, 12000 + i)
+        L = rng.randint(3, 16)
+        ks = []
+        for _ in range(L):
+            ks.append(ks[-1] if ks and rng.random() < 0.45 else rng.randrange(4))
+        cases.append({"n": rng.choice([2, 3, 4]), "keys": ks, "flags": [False] * L, "seed": seed + i, "kind": "line-number-modes",
+                      "numbers": rng.choice(["every-2", "every-3", "every-5", "block", "every"])})
     # distinct palette colours that are close to each other, with 24-bit colour off
     for i in range(60 if tier == "quick" else 600):
         rng = vlib.case_rng(seed, PID, 9000 + i)
